@@ -174,10 +174,11 @@ def _stream_cuts(rng, data):
     return [c for c in out if c]
 
 
-def _indialog(method, cseq, extra=b"", branch=b"z9hG4bKraw1"):
+def _indialog(method, cseq, extra=b"", branch=b"z9hG4bKraw1", cm=None):
+    """cm: the method named in CSeq when it is to differ from the request line (nothing on the receive path checks that they agree)"""
     cs = cseq if isinstance(cseq, bytes) else str(cseq).encode()
     return (method + b" sip:me@10.0.0.1 SIP/2.0\r\nVia: SIP/2.0/UDP 10.9.9.9:5060;branch=" + branch + b"\r\nFrom: <sip:peer@example.org>;tag=ptag\r\n"
-            b"To: <sip:me@example.org>;tag=@@TAG@@\r\nCall-ID: ua-call\r\nCSeq: " + cs + b" " + method + b"\r\nMax-Forwards: 70\r\n" + extra + b"Content-Length: 0\r\n\r\n")
+            b"To: <sip:me@example.org>;tag=@@TAG@@\r\nCall-ID: ua-call\r\nCSeq: " + cs + b" " + (cm or method) + b"\r\nMax-Forwards: 70\r\n" + extra + b"Content-Length: 0\r\n\r\n")
 
 
 def ep_cases(rng, tier):
@@ -196,6 +197,9 @@ def ep_cases(rng, tier):
     for cs in (b"0", b"4294967295", b"4294967296", b"99999999999999999999", b"-1", b"315", b"4294967294"):
         for m in (b"BYE", b"INFO", b"UPDATE", b"INVITE", b"PRACK", b"ACK", b"CANCEL", b"FOO"):
             hostile.append(_indialog(m, cs, branch=b"z9hG4bKh%d" % len(hostile)))
+    # request line and CSeq name different methods: the transaction key follows CSeq, the dispatch the request line
+    for m, cm in ((b"BYE", b"INVITE"), (b"INFO", b"ACK"), (b"INVITE", b"OPTIONS"), (b"UPDATE", b"CANCEL"), (b"ACK", b"BYE"), (b"CANCEL", b"INVITE"), (b"PRACK", b"INVITE"), (b"FOO", b"ACK")):
+        hostile.append(_indialog(m, 350 + len(hostile), branch=b"z9hG4bKh%d" % len(hostile), cm=cm))
     for extra in (b"RAck: garbage\r\n", b"RAck: 4294967295 4294967295 INVITE\r\n", b"RAck: 1 314 \r\n", b"RAck: 99999999999 1 INVITE\r\n", b"RAck:\r\n"):
         hostile.append(_indialog(b"PRACK", 400 + len(hostile), extra, branch=b"z9hG4bKh%d" % len(hostile)))
     for extra in (b"Session-Expires: 1\r\nSupported: timer\r\n", b"Session-Expires: 4294967295;refresher=uas\r\nSupported: timer\r\n", b"Min-SE: 4294967295\r\nSession-Expires: 1\r\n",
@@ -250,9 +254,14 @@ def net_cases(rng, tier, dgs):
     specials = [build(headers=[b"Via: garbage"] + base_headers()[1:]), build(headers=base_headers()[1:]), build(headers=base_headers(cseq="99999999999 OPTIONS")),
                 build(headers=[x for x in base_headers() if not x.startswith(b"From")] + [b"From: <"]), build(headers=base_headers(cseq="1 INVITE")),
                 build(start=b"ACK sip:b@example.org SIP/2.0", headers=base_headers(cseq="1 ACK")), build(start=b"SIP/2.0 200 OK"), build(start=b"CANCEL sip:b@example.org SIP/2.0", headers=base_headers(cseq="1 CANCEL"))]
+    # request line and CSeq disagree about the method (and so about the kind of transaction): nobody takes these, the endpoint answers
+    specials += [build(start=m + b" sip:b@example.org SIP/2.0", headers=base_headers(branch="z9hG4bKmm%d" % i, cseq="7 " + cm))
+                 for i, (m, cm) in enumerate(((b"MESSAGE", "INVITE"), (b"INVITE", "OPTIONS"), (b"BYE", "ACK"), (b"INFO", "CANCEL"), (b"ACK", "INVITE"), (b"CANCEL", "INVITE"), (b"REGISTER", "ACK"), (b"INVITE", "ACK")))]
     n_groups = 6 if tier == "quick" else 60
     for g in range(n_groups):
         pk = [rng.choice(hostile) for _ in range(10)] + [rng.choice(specials) for _ in range(3)]
+        if g == 1:
+            pk = specials[8:] + [rng.choice(hostile) for _ in range(4)]
         if g == 0:
             pk = [d for (lab, d) in dgs if lab in ("cl", "cl2") and b"1844674407370955" in d][:12] + specials
         rng.shuffle(pk)
